@@ -57,10 +57,12 @@ Definition ckey_eqb (a b : ckey) : bool :=
   (ck_tag a =? ck_tag b) && optN_eqb (ck_coin a) (ck_coin b) && Bool.eqb (ck_script a) (ck_script b)
   && (ck_cred a =? ck_cred b) && (ck_pool a =? ck_pool b) && (ck_var a =? ck_var b).
 
-(* a withdrawal: reward account (key-or-script flag + id) and amount; the account is the map key *)
-Record iwd : Type := mk_iwd { w_script : bool; w_acct : N; w_coin : N }.
-Definition wd_key (w : iwd) : bool * N := (w_script w, w_acct w).
-Definition wkey_eqb (a b : bool * N) : bool := Bool.eqb (fst a) (fst b) && (snd a =? snd b).
+(* a withdrawal: reward account = network id + credential (key-or-script flag + hash id), and amount; the whole
+   account is the map key: the same credential on two networks is two accounts *)
+Record iwd : Type := mk_iwd { w_script : bool; w_acct : N; w_net : N; w_coin : N }.
+Definition wd_key (w : iwd) : bool * N * N := (w_script w, w_acct w, w_net w).
+Definition wkey_eqb (a b : bool * N * N) : bool :=
+  Bool.eqb (fst (fst a)) (fst (fst b)) && (snd (fst a) =? snd (fst b)) && (snd a =? snd b).
 
 (* a proposal: governance action + anchor ([p_act]), return address ([p_ret]), deposit: all of it is the set key *)
 Record iprop : Type := mk_iprop { p_act : N; p_ret : N; p_deposit : N }.
@@ -152,6 +154,6 @@ Fixpoint number_from {A B} (f : N -> A -> B) (i : N) (l : list A) : list B :=
 Definition positional (k : case) : icase :=
   mk_icase (k_pool_deposit k) (k_key_deposit k)
            (option_map (number_from (fun i cs => mk_icert (fst cs) (snd cs) (mk_ident i i i)) 0) (k_certs k))
-           (option_map (number_from (fun i sw => mk_iwd (fst sw) i (snd sw)) 0) (k_withdrawals k))
+           (option_map (number_from (fun i sw => mk_iwd (fst sw) i (N.modulo i 2) (snd sw)) 0) (k_withdrawals k))
            (option_map (number_from (fun i d => mk_iprop i i d) 0) (k_proposals k))
            (k_inputs k) (k_outputs k) (k_donation k).
